@@ -157,8 +157,248 @@ class ExecuteJson(ClientContract):
                 "returns-the-response": res == z3.Const("http_response", V.Val)}
 
 
+# ------------------------------------------------------------------------------------------ multipart request
+class ExecuteMultipart(ClientContract):
+    """statement: `a multipart form obeying the GraphQL multipart request specification`: the form carries `operations`
+    (JSON of exactly query, operationName, variables) and `map` (JSON of the path map), the files are the parts"""
+    props = ("C11",)
+    method = "_execute_multipart"
+    use_at_calls = False
+
+    def setup(self, E):
+        kwargs = E.sym("kwargs", DictOf(Str, Any, name="kwargs_mp"))
+        E.assume(z3.And(*[z3.Not(has(kwargs.t, k)) for k in ("query", "operation_name", "variables", "files", "files_map", "url", "data")]))
+        return [self.self_obj(E)], dict(query=E.sym("query", Str), operation_name=E.sym("operation_name", Opt(Str)),
+                                        variables=E.sym("variables", JOBJ), files=E.sym("files", DictOf(Str, Any, name="files_mp")),
+                                        files_map=E.sym("files_map", DictOf(Str, ListOf(Str), name="files_map_mp")), __splat__=kwargs)
+
+    def ensures(self, A, res):
+        kw = A.kwargs
+        ops = V.lower(Obj(models.JsonText, {"value": {"query": SV(A.query), "operationName": SV(A.operation_name),
+                                                      "variables": SV(A.variables)}}))
+        fmap = V.lower(Obj(models.JsonText, {"value": SV(A.files_map)}))
+        posts = [p for k, p in A["__effects__"] if k == "http_post"]
+        sent = posts[0] if posts else V.VNone
+        data = get(sent, "data")
+        other = z3.Const("other_key", V.Val)
+        return {"exactly-one-post": z3.BoolVal(len(posts) == 1),
+                "form-carries-operations-and-map/files-are-the-parts": z3.And(
+                    get(sent, "url") == URL, get(data, "operations") == ops, get(data, "map") == fmap,
+                    get(sent, "files") == A.files),
+                "form-has-no-other-field": z3.Implies(z3.And(other != S("operations"), other != S("map")), z3.Not(has(data, other))),
+                "other-kwargs-passed-through": z3.Implies(
+                    z3.And(other != S("files"), other != S("url"), other != S("data")),
+                    z3.And(has(sent, other) == has(kw, other), get(sent, other) == get(kw, other))),
+                "returns-the-response": res == z3.Const("http_response", V.Val)}
+
+
+# ------------------------------------------------------------------------------------------ dispatchers
+# The entry points hand the work to the senders proved above. Each dispatcher is proved against stand-ins of its callees
+# that record the call (name, keyword arguments) and answer with an arbitrary value: the dispatcher must call the right
+# callee exactly once, with the prescribed arguments, and return its answer unchanged.
+def _stub(self_, name, result):
+    from pyvc.interp import ModelMethod, Unsupported
+    from pyvc.val import MDict
+
+    def call(I, o, a, k):
+        kw = dict(k)
+        splat = kw.pop("__splat__", None)
+        m = MDict(V.lower(splat)) if splat is not None else MDict(V.lower({}))
+        for key, v in kw.items():
+            m.t = V.VDict(V.d_set(V.vd(m.t), V.lower(key), V.lower(v)))
+        I.p.effect("call", (name, [V.lower(x) for x in a], m.t))
+        return result
+    self_.attrs[name] = ModelMethod(self_, call, name)
+
+
+def _calls(A):
+    return [p for k, p in A["__effects__"] if k == "call"]
+
+
+PV, FILES, FMAP = (z3.Const(n, V.Val) for n in ("processed_variables", "files_found", "files_map_found"))
+RESP = {n: z3.Const("response_of" + n, V.Val) for n in ("_execute_json", "_execute_multipart", "_execute_json_with_telemetry",
+                                                         "_execute_multipart_with_telemetry", "_execute", "_execute_with_telemetry")}
+
+
+def _passes(sent, kw, named, extra_ignored=()):
+    """the recorded keyword arguments are exactly `named` plus the caller's **kwargs"""
+    other = z3.Const("other_key", V.Val)
+    names = list(named) + list(extra_ignored)
+    return z3.And(*[get(sent, k) == v for k, v in named.items()],
+                  z3.Implies(z3.And(*[other != S(k) for k in names]),
+                             z3.And(has(sent, other) == has(kw, other), get(sent, other) == get(kw, other))))
+
+
+class Execute(ClientContract):
+    """statement: `without file uploads it is JSON ..., with Upload objects anywhere in the variables it is a multipart
+    form`: variables are processed once; multipart iff files were found, JSON otherwise; the response is returned"""
+    props = ("C11",)
+    use_at_calls = False
+    frame_args = False
+    telemetry = False
+
+    def __init__(self, module, klass, method):
+        self.method = method
+        super().__init__(module, klass)
+        self.telemetry = method.endswith("_with_telemetry")
+
+    def setup(self, E):
+        self_ = self.self_obj(E, tracer=True)
+        suffix = "_with_telemetry" if self.telemetry else ""
+        _stub(self_, "_process_variables", (SV(PV), SV(FILES), SV(FMAP)))
+        for n in ("_execute_json", "_execute_multipart"):
+            _stub(self_, n + suffix, SV(RESP[n + suffix]))
+        kwargs = E.sym("kwargs", DictOf(Str, Any, name="kwargs_ex"))
+        E.assume(z3.And(*[z3.Not(has(kwargs.t, k)) for k in ("query", "operation_name", "variables", "files", "files_map", "root_span")]))
+        return [self_], dict(query=E.sym("query", Str), operation_name=E.sym("operation_name", Opt(Str)),
+                             variables=E.sym("variables", Opt(L.VARIABLES)), __splat__=kwargs)
+
+    def ensures(self, A, res):
+        suffix = "_with_telemetry" if self.telemetry else ""
+        calls = _calls(A)
+        kw = A.kwargs
+        out = {"variables-processed-once-then-exactly-one-request": z3.BoolVal(
+            len(calls) == 2 and calls[0][0] == "_process_variables" and calls[1][0] in ("_execute_json" + suffix, "_execute_multipart" + suffix))}
+        if not z3.is_true(out["variables-processed-once-then-exactly-one-request"]):
+            return out
+        (_, pargs, pkw), (name, args, sent) = calls
+        out["processes-the-given-variables"] = z3.And(z3.BoolVal(len(pargs) == 1), *( [pargs[0] == A.variables] if len(pargs) == 1 else []))
+        multipart = z3.And(truthy(FILES), truthy(FMAP))
+        named = {"query": A.query, "operation_name": A.operation_name, "variables": PV}
+        if name.startswith("_execute_multipart"):
+            named.update(files=FILES, files_map=FMAP)
+            out["multipart-iff-files-were-found"] = multipart
+        else:
+            out["multipart-iff-files-were-found"] = z3.Not(multipart)
+        out["request-carries-query-operationName-processed-variables-and-kwargs"] = z3.And(
+            z3.BoolVal(len(args) == 0), _passes(sent, kw, named, extra_ignored=("root_span",)))
+        out["returns-the-response"] = res == RESP[name]
+        return out
+
+    def on_raise(self, A, exc_cls, exc):
+        return {"adds-no-exception-of-its-own": z3.BoolVal(False)}
+
+    def replay_custom(self, inputs):
+        return dict(inputs={k: str(v)[:200] for k, v in inputs.items()}, failed=[], undetermined=["dispatcher proved against stand-ins"],
+                    pre_ok=True, outcome=None, error=None)
+
+
+class TelemetryTwin(ClientContract):
+    """`_execute_json_with_telemetry` / `_execute_multipart_with_telemetry`: the instrumented twin sends exactly the request
+    of the plain sender (same arguments, response returned)"""
+    props = ("C11",)
+    use_at_calls = False
+    frame_args = False
+
+    def __init__(self, module, klass, method):
+        self.method = method
+        self.plain = method[: -len("_with_telemetry")]
+        super().__init__(module, klass)
+
+    def setup(self, E):
+        self_ = self.self_obj(E, tracer=True)
+        _stub(self_, self.plain, SV(RESP[self.plain]))
+        kwargs = E.sym("kwargs", DictOf(Str, Any, name="kwargs_tw"))
+        E.assume(z3.And(*[z3.Not(has(kwargs.t, k)) for k in ("query", "operation_name", "variables", "files", "files_map", "root_span")]))
+        kw = dict(root_span=Obj(F.FakeSpan, {}), query=E.sym("query", Str), operation_name=E.sym("operation_name", Opt(Str)),
+                  variables=E.sym("variables", JOBJ), __splat__=kwargs)
+        if "multipart" in self.method:
+            kw.update(files=E.sym("files", DictOf(Str, Any, name="files_tw")),
+                      files_map=E.sym("files_map", DictOf(Str, ListOf(Str), name="files_map_tw")))
+        return [self_], kw
+
+    def ensures(self, A, res):
+        calls = _calls(A)
+        out = {"exactly-one-request-through-the-plain-sender": z3.BoolVal(len(calls) == 1 and calls[0][0] == self.plain and len(calls[0][1]) == 0)}
+        if z3.is_true(out["exactly-one-request-through-the-plain-sender"]):
+            named = {"query": A.query, "operation_name": A.operation_name, "variables": A.variables}
+            if "multipart" in self.method:
+                named.update(files=A.files, files_map=A.files_map)
+            out["same-arguments"] = _passes(calls[0][2], A.kwargs, named)
+            out["returns-the-response"] = res == RESP[self.plain]
+        return out
+
+    def on_raise(self, A, exc_cls, exc):
+        return {"adds-no-exception-of-its-own": z3.BoolVal(False)}
+
+    replay_custom = Execute.replay_custom
+
+
+class ExecuteDispatch(ClientContract):
+    """OpenTelemetry clients: `execute` hands the call to `_execute_with_telemetry` iff a tracer is configured, else to
+    `_execute`, with the same arguments, and returns its response (`tracer present or not ... identical requests`)"""
+    props = ("C11",)
+    method = "execute"
+    use_at_calls = False
+    frame_args = False
+
+    def setup(self, E):
+        tracer = E.fork("tracer")
+        E.p.tracer_on = tracer
+        self_ = self.self_obj(E, tracer=tracer)
+        for n in ("_execute", "_execute_with_telemetry"):
+            _stub(self_, n, SV(RESP[n]))
+        kwargs = E.sym("kwargs", DictOf(Str, Any, name="kwargs_d"))
+        E.assume(z3.And(*[z3.Not(has(kwargs.t, k)) for k in ("query", "operation_name", "variables")]))
+        return [self_], dict(query=E.sym("query", Str), operation_name=E.sym("operation_name", Opt(Str)),
+                             variables=E.sym("variables", Opt(L.VARIABLES)), __splat__=kwargs)
+
+    def ensures(self, A, res):
+        calls = _calls(A)
+        want = "_execute_with_telemetry" if getattr(A["__path__"], "tracer_on", False) else "_execute"
+        out = {"instrumented-twin-iff-tracer/exactly-one-call": z3.BoolVal(len(calls) == 1 and calls[0][0] == want and len(calls[0][1]) == 0)}
+        if z3.is_true(out["instrumented-twin-iff-tracer/exactly-one-call"]):
+            out["same-arguments"] = _passes(calls[0][2], A.kwargs, {"query": A.query, "operation_name": A.operation_name, "variables": A.variables})
+            out["returns-the-response"] = res == RESP[want]
+        return out
+
+    def on_raise(self, A, exc_cls, exc):
+        return {"adds-no-exception-of-its-own": z3.BoolVal(False)}
+
+    replay_custom = Execute.replay_custom
+
+
+class ProcessVariables(ClientContract):
+    """`_process_variables`: nothing to do for absent/empty variables; otherwise the files are separated from the
+    converted variables (UNSET dropped, models dumped) and the triple of `_get_files_from_variables` is returned"""
+    props = ("C11",)
+    method = "_process_variables"
+    use_at_calls = False
+    frame_args = False
+
+    def setup(self, E):
+        self_ = self.self_obj(E)
+        _stub(self_, "_get_files_from_variables", (SV(PV), SV(FILES), SV(FMAP)))
+        return [self_, E.sym("variables", Opt(L.VARIABLES))], {}
+
+    def ensures(self, A, res):
+        calls = _calls(A)
+        v = A.variables
+        empty = tup(dct(), dct(), dct())
+        if not calls:
+            return {"no-variables-no-files": z3.And(z3.Not(truthy(v)), res == empty)}
+        ok = len(calls) == 1 and calls[0][0] == "_get_files_from_variables" and len(calls[0][1]) == 1
+        out = {"files-separated-once": z3.BoolVal(ok)}
+        if ok:
+            out["separates-the-converted-variables"] = z3.And(truthy(v), calls[0][1][0] == V.VDict(L.conv_dict(V.vd(v))))
+            out["returns-variables-files-map"] = res == tup(SV(PV), SV(FILES), SV(FMAP))
+        return out
+
+    def on_raise(self, A, exc_cls, exc):
+        return {"does-not-raise": z3.BoolVal(False)}
+
+    replay_custom = Execute.replay_custom
+
+
 def all_clients(cls):
     return [cls(m, k) for m, k in CLIENTS]
 
 
-CONTRACTS = all_clients(ConvertValue) + all_clients(ConvertDict) + all_clients(ExecuteJson)
+OTEL_CLIENTS = [c for c in CLIENTS if c[1].endswith("OpenTelemetry")]
+PLAIN_CLIENTS = [c for c in CLIENTS if not c[1].endswith("OpenTelemetry")]
+DISPATCH = ([Execute(m, k, "execute") for m, k in PLAIN_CLIENTS]
+            + [Execute(m, k, meth) for m, k in OTEL_CLIENTS for meth in ("_execute", "_execute_with_telemetry")]
+            + [TelemetryTwin(m, k, meth) for m, k in OTEL_CLIENTS for meth in ("_execute_json_with_telemetry", "_execute_multipart_with_telemetry")]
+            + [ExecuteDispatch(m, k) for m, k in OTEL_CLIENTS])
+CONTRACTS = (all_clients(ConvertValue) + all_clients(ConvertDict) + all_clients(ExecuteJson) + all_clients(ExecuteMultipart)
+             + all_clients(ProcessVariables) + DISPATCH)
